@@ -99,6 +99,12 @@ def native_lemma(loader, word, target=None):
             cp.__dict__.update(pre.__dict__)
             c06.CursorPre.setup_cursor(cp, L)
             pre = cp
+        if word == "vec_builder_end":
+            # an open vector builder whose mark is at most 2 cells below the top (bound: <= 2 collected items)
+            ptr = z3.BitVec("vb_ptr", 64)
+            pre.vec("special").items.append(Enum("state::Special", "VecStackStart", Struct("state::Special::VecStackStart", {0: Int(ptr, 64, False)})))
+            pre.ds.items = [L.cell("e0"), L.cell("e1")]
+            pre.pc += [z3.ULE(ptr, pre.ds.len_term()), z3.UGE(ptr + 2, pre.ds.len_term()), z3.UGE(ptr, pre.ds_len.t)]
         # the current instruction is NativeCall(<this word>)
         pre.op.variant = "NativeCall"
         pre.op.payload = Struct("opcodes::Opcode::NativeCall", {0: Struct("cell::XfnPtr", {0: FnVal(fnobj.name)})})
@@ -137,7 +143,7 @@ def run(L, tier, only=None):
     for loader, w in words:
         if not only or w in only or "natives" in only:
             L.lemma("C02 native " + w, native_lemma(loader, w))
-    for h in HELPERS:
+    for h in (HELPERS if tier != "quick" else [x for x in HELPERS if x != "vec_builder_end"]):
         if not only or h in only or "natives" in only:
             L.lemma("C02 native " + h, native_lemma("load_core", h, target=h))
     L.ex.path_budget = None
